@@ -8,22 +8,50 @@ store of a Python int is checked against the range model, the before/after
 byte images under the field's storage mask (the mask is what a *C* store of
 all-ones changes in a zeroed object), and the C getter.  UBSan/ASan reports
 inside the backend are deciding (the statement is about exactly these bits).
+
+Besides that exhaustive basic family the generator places the field in the
+other contexts that decide its (offset, bitshift): after a short non-bitfield
+member, next to bitfields of other integer types (sharing or spilling out of
+the storage unit), after anonymous / zero-width bitfields, inside unions,
+anonymous nested structs/unions and named nested structs, as the very last
+member (no slack behind the storage unit), before a flexible array, and in
+packed (packed=True / pack=N) declarations (judged against cffi's own field
+metadata, because the documentation does not promise gcc's packed bitfield
+layout).  Every store goes through one of the equivalent entry points
+(p.f = v, p[0].f = v, p[0] = {...}, ffi.new(T, {...}), ffi.new(T, [...])) on
+owned memory, on an element of an array or on memory from ffi.from_buffer().
 """
 import os
 from vlib import gen, cc, core
 
 RULE = ("case = (integer type, width w in 1..8*sizeof, bit position) placement x Python int v "
-        "(boundary lattice of the field range and of 64-bit limits, >64-bit magnitudes, random) "
-        "on random initial storage; distinct = distinct (type,w,pos,v); non-trivial = w>1 or "
-        "position>0 (every case writes/reads through the real backend and is compared with gcc's "
-        "accessors)")
+        "(boundary lattice of the field range and of 64-bit limits, >64-bit magnitudes, in-range "
+        "values shifted by multiples of 2**63/2**64, int subclasses, random) on random initial "
+        "storage; placements = exhaustive basic family (same-type pad/tail between sentinels) + "
+        "sampled contexts (short leading member, mixed-type neighbours incl. spill to the next "
+        "unit, anonymous and :0 bitfields, union, anonymous struct/union, nested struct, last "
+        "member, flexible array, packed/pack=N); each store uses one of 5 entry points on one of "
+        "3 kinds of memory; distinct = distinct (placement,v); non-trivial = w>1 or position>0 or "
+        "non-basic context (every case writes/reads through the real backend and is compared "
+        "with gcc's accessors, packed ones with cffi's own field metadata)")
 ASSUMPTIONS = ["gcc's bitfield allocation and its get/set code are the C view of the storage",
-               "only the x86-64 gcc bitfield ABI branch of the backend is executed"]
+               "only the x86-64 gcc bitfield ABI branch of the backend is executed",
+               "packed=True / pack=N declarations: the documentation does not promise gcc's "
+               "layout for packed bitfields, so these are judged against the field position "
+               "cffi itself reports (little-endian bit numbering), not against gcc"]
 
-BF_TYPES = [t for t in gen.INT_TYPES if t[0] in (
+_BASIC_NAMES = ('signed char', 'unsigned char', 'short', 'unsigned short', 'int', 'unsigned int',
+                'long', 'unsigned long', 'long long', 'unsigned long long', 'int8_t', 'uint8_t',
+                'int16_t', 'uint16_t', 'int32_t', 'uint32_t', 'int64_t', 'uint64_t')
+BF_TYPES = [t for t in gen.INT_TYPES if t[0] in _BASIC_NAMES] + [('_Bool', 1, False)]
+# integer typedefs that only appear in the sampled contexts
+EXTRA_TYPES = [t for t in gen.INT_TYPES if t[0] not in _BASIC_NAMES]
+PAD_TYPES = [t for t in gen.INT_TYPES if t[0] in (
     'signed char', 'unsigned char', 'short', 'unsigned short', 'int', 'unsigned int', 'long',
-    'unsigned long', 'long long', 'unsigned long long', 'int8_t', 'uint8_t', 'int16_t',
-    'uint16_t', 'int32_t', 'uint32_t', 'int64_t', 'uint64_t')] + [('_Bool', 1, False)]
+    'unsigned long long', 'uint16_t', 'int64_t', 'size_t')]
+
+MODES = ['ptr', 'val', 'item', 'new-dict', 'new-list']
+SITES = ['own', 'arr', 'frombuf']
 
 
 def field_range(T, signed, w):
@@ -43,7 +71,156 @@ def values_for(rng, T, signed, w, nrand):
     for _ in range(nrand):
         vals.add(rng.randint(lo, hi))
         vals.add(gen.rand_int(rng))
+    # in-range values moved by multiples of 2**63 / 2**64 / 2**128: congruent to an
+    # in-range value modulo the widths a C conversion could silently reduce by
+    x = rng.randint(lo, hi)
+    vals.update([x + (1 << 64), x - (1 << 64), x + (1 << 63), x - (1 << 63), x + (1 << 128),
+                 hi + (3 << 64), lo - (1 << 65)])
     return sorted(vals)
+
+
+# ---------------------------------------------------------------------------
+# placements
+
+def _mk(T, size, signed, w, kind, key, body, rng, nrand, pre='', top='struct', path='f',
+        oracle='c', flex=False, spilled=False):
+    return {'T': T, 'size': size, 'signed': signed, 'w': w, 'k': key, 'kind': kind,
+            'key': '%s|%s|%s:%d|%s' % (kind, top, T, w, key), 'pre': pre, 'body': body,
+            'top': top, 'path': path, 'oracle': oracle, 'flex': flex, 'spilled': spilled,
+            'vals': values_for(rng, T, signed, w, nrand)}
+
+
+def basic_body(T, k, w, tail, padT):
+    f = ['unsigned char s0[8];']
+    if k:
+        f.append('%s pad:%d;' % (padT, k))
+    f.append('%s f:%d;' % (T, w))
+    if tail:
+        f.append('%s tail:%d;' % (padT, tail))
+    f.append('unsigned char s1[8];')
+    return ' '.join(f)
+
+
+def _pick_tw(rng):
+    T, size, signed = rng.choice(BF_TYPES + BF_TYPES + EXTRA_TYPES)
+    bits = 8 * size
+    if T == '_Bool':
+        return T, size, signed, 1
+    w = rng.choice([1, 2, 7, 8, 9, bits - 1, bits, bits // 2, rng.randint(1, bits),
+                    rng.randint(1, bits)])
+    return T, size, signed, max(1, min(bits, w))
+
+
+def _pick_pad(rng, T):
+    if rng.random() < 0.25 and T != '_Bool':
+        P = [t for t in gen.INT_TYPES if t[0] == T][0]
+    else:
+        P = rng.choice(PAD_TYPES)
+    pbits = 8 * P[1]
+    k = rng.choice([1, 3, 7, 8, 9, pbits - 1, pbits, rng.randint(1, pbits), rng.randint(1, pbits)])
+    return P[0], max(1, min(pbits, k)), pbits
+
+
+def context_placement(rng, kind, nrand):
+    """One placement of the field in a non-basic context."""
+    T, size, signed, w = _pick_tw(rng)
+    bits = 8 * size
+    P, k, pbits = _pick_pad(rng, T)
+    Q, r, _ = _pick_pad(rng, T)
+    lead = rng.choice(['char', 'unsigned char', 'signed char'])
+    n = rng.randint(1, min(size + 1, 8))
+    tail = (' %s tail:%d;' % (Q, r)) if rng.random() < 0.6 else ''
+    S0, S1 = 'unsigned char s0[8]; ', ' unsigned char s1[8];'
+    f = '%s f:%d;' % (T, w)
+    kw = {}
+    if kind == 'lead':
+        body = S0 + '%s c[%d]; ' % (lead, n) + f + tail + S1
+        key = 'c%d%s' % (n, tail)
+    elif kind == 'mixed':
+        second = ('%s pad2:%d; ' % (Q, r)) if rng.random() < 0.4 else ''
+        body = S0 + '%s pad:%d; ' % (P, k) + second + f + tail + S1
+        key = '%s:%d %s%s' % (P, k, second, tail)
+        kw['spilled'] = (not second) and k + w > bits
+    elif kind == 'anonbf':
+        z = rng.random()
+        if z < 0.4:
+            body = S0 + '%s :%d; ' % (P, k) + f + tail + S1
+        elif z < 0.7:
+            body = S0 + '%s pad:%d; %s :0; ' % (P, k, Q) + f + tail + S1
+        else:
+            body = S0 + '%s c; %s :%d; %s pad:%d; ' % (lead, P, k, Q, r) + f + tail + S1
+        key = body
+    elif kind == 'union':
+        body = '%s g:%d; %s unsigned char raw[16];' % (P, k, f) if rng.random() < 0.5 else \
+            f + ' %s g:%d; unsigned long long all[2];' % (P, k)
+        key = body
+        kw['top'] = 'union'
+    elif kind == 'anon_union':
+        inner = ('%s g:%d; %s' % (P, k, f)) if rng.random() < 0.5 else (f + ' %s g:%d;' % (P, k))
+        body = S0 + '%s c[%d]; union { %s };' % (lead, n, inner) + S1
+        key = body
+    elif kind == 'anon_struct':
+        body = S0 + '%s c[%d]; struct { %s pad:%d; %s%s };' % (lead, n, P, k, f, tail) + S1
+        key = body
+    elif kind == 'nested':
+        kw['pre'] = 'struct in@ { %s pad:%d; %s%s };' % (P, k, f, tail)
+        body = S0 + '%s c[%d]; struct in@ inner;' % (lead, n) + S1
+        key = kw['pre'] + body
+        kw['path'] = 'inner.f'
+    elif kind == 'tight':
+        # the field is the last thing in the object: nothing behind its storage unit
+        z = rng.random()
+        if z < 0.4:
+            body = '%s c[%d]; ' % (lead, n) + f
+        elif z < 0.8:
+            body = '%s pad:%d; ' % (P, k) + f
+        else:
+            body = f
+        key = body
+    elif kind == 'flex':
+        body = S0 + '%s pad:%d; ' % (P, k) + f + tail + ' unsigned char s1[];'
+        key = body
+        kw['flex'] = True
+    elif kind == 'packed':
+        z = rng.random()
+        if z < 0.35:
+            body = '%s c[%d]; ' % (lead, n) + f
+        elif z < 0.55:
+            body = '%s c[%d]; ' % (lead, n) + f + ' %s d;' % lead
+        elif z < 0.8:
+            kk = min(pbits, rng.choice([8, 16, 24, k]))
+            body = S0 + '%s c[%d]; %s pad:%d; ' % (lead, n, P, kk) + f + tail + S1
+        else:
+            body = '%s pad:%d; ' % (P, min(pbits, rng.choice([8, 16, k]))) + f
+        key = body
+        kw['oracle'] = 'self'
+    else:
+        raise ValueError(kind)
+    return _mk(T, size, signed, w, kind, key, body, rng, nrand, **kw)
+
+
+CONTEXT_KINDS = ['lead', 'mixed', 'anonbf', 'union', 'anon_union', 'anon_struct', 'nested',
+                 'tight', 'flex']
+
+
+def decl(s, j):
+    """Complete C declaration(s) of placement s under the tag number j."""
+    pre = s.get('pre', '').replace('@', str(j))
+    return '%s%s s%d { %s };' % (pre + ' ' if pre else '', s.get('top', 'struct'), j,
+                                s['body'].replace('@', str(j)))
+
+
+def c_source(case):
+    src = []
+    for j, s in enumerate(case['structs']):
+        tn = '%s s%d' % (s.get('top', 'struct'), j)
+        src.append(decl(s, j))
+        rt = 'unsigned long long' if not s['signed'] else 'long long'
+        path = s.get('path', 'f')
+        src.append('%s get_%d(%s *p) { return p->%s; }' % (rt, j, tn, path))
+        src.append('void set_%d(%s *p, long long v) { p->%s = v; }' % (j, tn, path))
+        src.append('size_t size_%d(void) { return sizeof(%s); }' % (j, tn))
+    return '\n'.join(src)
 
 
 def generate(ctx):
@@ -62,160 +239,370 @@ def generate(ctx):
             for k in sorted(poss):
                 tail = rng.choice([0, 0, 1, room - k]) if room - k > 0 else 0
                 padT = T if T != '_Bool' else 'unsigned char'
-                structs.append({'T': T, 'size': size, 'signed': signed, 'w': w, 'k': k,
-                                'tail': tail, 'padT': padT,
-                                'vals': values_for(rng, T, signed, w, nrand)})
+                structs.append(_mk(T, size, signed, w, 'basic', '%d+%d' % (k, tail),
+                                   basic_body(T, k, w, tail, padT), rng, nrand))
+                structs[-1]['k'] = k
+    # sampled contexts (same oracle: gcc accessors)
+    crng = ctx.rng('contexts')
+    nctx = ctx.scale(45, 400)
+    if os.environ.get('C02_AUDIT_BASELINE'):   # AUDIT-TEMP
+        nctx = 0
+    seen = set(s['key'] for s in structs)
+    for kind in CONTEXT_KINDS:
+        made = tries = 0
+        while made < nctx and tries < 20 * nctx:
+            tries += 1
+            s = context_placement(crng, kind, ctx.scale(2, 20))
+            if s['key'] in seen:
+                continue
+            seen.add(s['key'])
+            structs.append(s)
+            made += 1
     rng.shuffle(structs)
     per = 80
     cases = []
     for i in range(0, len(structs), per):
-        cases.append({'structs': structs[i:i + per], 'no': len(cases),
+        cases.append({'structs': structs[i:i + per], 'no': len(cases), 'cls': 'c',
                       'seed': rng.getrandbits(32)})
+    # packed declarations: own cases (one cdef(packed=True) / cdef(pack=N) each)
+    for pack in (1, 2, 4):
+        if os.environ.get('C02_AUDIT_BASELINE'):   # AUDIT-TEMP
+            break
+        ps = []
+        tries = 0
+        while len(ps) < ctx.scale(40, 300) and tries < 10000:
+            tries += 1
+            s = context_placement(crng, 'packed', ctx.scale(2, 20))
+            s['key'] = 'pack%d|' % pack + s['key']
+            if s['key'] in seen:
+                continue
+            seen.add(s['key'])
+            ps.append(s)
+        for i in range(0, len(ps), per):
+            cases.append({'structs': ps[i:i + per], 'no': len(cases), 'cls': 'packed',
+                          'pack': pack, 'seed': rng.getrandbits(32)})
     # build one accessor .so per case with gcc
     import concurrent.futures as cf
 
     def build(case):
-        src = []
-        for j, s in enumerate(case['structs']):
-            src.append(decl(s, j) + ';')
-            rt = 'unsigned long long' if not s['signed'] else 'long long'
-            src.append('%s get_%d(struct s%d *p) { return p->f; }' % (rt, j, j))
-            src.append('void set_%d(struct s%d *p, long long v) { p->f = v; }' % (j, j))
-            src.append('size_t size_%d(void) { return sizeof(struct s%d); }' % (j, j))
-        so = cc.build_so(ctx.tmp, '\n'.join(src), 'c02_%d.so' % case['no'])
-        case['so'] = so
+        if case['cls'] == 'c':
+            case['so'] = cc.build_so(ctx.tmp, c_source(case), 'c02_%d.so' % case['no'])
     with cf.ThreadPoolExecutor(16) as ex:
         list(ex.map(build, cases))
     return None, cases
-
-
-def decl(s, j):
-    f = ['unsigned char s0[8];']
-    if s['k']:
-        f.append('%s pad:%d;' % (s['padT'] if s['T'] == '_Bool' else s['T'], s['k']))
-    f.append('%s f:%d;' % (s['T'], s['w']))
-    if s['tail']:
-        f.append('%s tail:%d;' % (s['padT'] if s['T'] == '_Bool' else s['T'], s['tail']))
-    f.append('unsigned char s1[8];')
-    return 'struct s%d { %s }' % (j, ' '.join(f))
 
 
 def child_setup(setup, wd):
     return {}
 
 
+# ---------------------------------------------------------------------------
+# child side
+
+class _I(int):
+    """an int subclass: still 'a Python int v'"""
+
+
+def _nest(path, v):
+    d = v
+    for name in reversed(path):
+        d = {name: d}
+    return d
+
+
+def _list_init(ctype, path, v):
+    """Positional initializer that reaches the field at `path` (None if the
+    field cannot be reached positionally, e.g. non-first union member)."""
+    out = []
+    if ctype.kind == 'union':
+        name, fld = ctype.fields[0]
+        if name != path[0]:
+            return None
+        return [v] if len(path) == 1 else [_list_init(fld.type, path[1:], v)]
+    for name, fld in ctype.fields:
+        if name == path[0]:
+            if len(path) == 1:
+                out.append(v)
+            else:
+                sub = _list_init(fld.type, path[1:], v)
+                if sub is None:
+                    return None
+                out.append(sub)
+            return out
+        t = fld.type
+        if t.kind == 'array':
+            out.append([])
+        elif t.kind in ('struct', 'union'):
+            out.append({})
+        elif t.cname == 'char':
+            out.append(b'\0')
+        else:
+            out.append(0)
+    return None
+
+
 def child_case(st, case):
     import random
     from cffi import FFI
     ffi = FFI()
-    cdef = []
-    for j, s in enumerate(case['structs']):
-        cdef.append(decl(s, j) + ';')
-        rt = 'unsigned long long' if not s['signed'] else 'long long'
-        cdef.append('%s get_%d(struct s%d *p);' % (rt, j, j))
-        cdef.append('void set_%d(struct s%d *p, long long v);' % (j, j))
-        cdef.append('size_t size_%d(void);' % j)
-    ffi.cdef('\n'.join(cdef))
-    lib = ffi.dlopen(case['so'])
-    rnd = random.Random(case['seed'])
+    packed = case.get('cls') == 'packed'
+    structs = case['structs']
+    if packed:
+        text = '\n'.join(decl(s, j) for j, s in enumerate(structs))
+        if case['pack'] == 1:
+            ffi.cdef(text, packed=True)
+        else:
+            ffi.cdef(text, pack=case['pack'])
+        lib = None
+    else:
+        cdef = []
+        for j, s in enumerate(structs):
+            tn = '%s s%d' % (s.get('top', 'struct'), j)
+            cdef.append(decl(s, j))
+            rt = 'unsigned long long' if not s['signed'] else 'long long'
+            cdef.append('%s get_%d(%s *p);' % (rt, j, tn))
+            cdef.append('void set_%d(%s *p, long long v);' % (j, tn))
+            cdef.append('size_t size_%d(void);' % j)
+        ffi.cdef('\n'.join(cdef))
+        lib = ffi.dlopen(case['so'])
     bad = []
     n = 0
     stats = {'accepted': 0, 'rejected': 0, 'c_reads': 0}
 
+    def stat(name, k=1):
+        stats[name] = stats.get(name, 0) + k
+
     def report(mech, msg, j, v):
-        if len(bad) < 30:
+        if len(bad) < 30 or mech not in [b[0] for b in bad]:
             bad.append([mech, msg, j, v])
-    for j, s in enumerate(case['structs']):
+
+    for j, s in enumerate(structs):
         T, signed, w = s['T'], s['signed'], s['w']
+        kind = s.get('kind', 'basic')
+        path = s.get('path', 'f').split('.')
         lo, hi = field_range(T, signed, w)
-        size = ffi.sizeof('struct s%d' % j)
-        if size != getattr(lib, 'size_%d' % j)():
-            report('layout', 'sizeof(struct s%d)=%d but gcc %d: %s' % (
-                j, size, getattr(lib, 'size_%d' % j)(), decl(s, j)), j, None)
-            continue
-        p = ffi.new('struct s%d *' % j)
-        buf = ffi.buffer(p)
-        getter = getattr(lib, 'get_%d' % j)
-        setter = getattr(lib, 'set_%d' % j)
-        # storage mask: what a C store of all-ones changes in a zeroed object
-        setter(p, -1)
-        mask = bytes(buf)
-        buf[:] = b'\0' * size
+        tn = '%s s%d' % (s.get('top', 'struct'), j)
+        try:
+            ctype = ffi.typeof(tn)
+            size = ffi.sizeof(tn)
+        except NotImplementedError:
+            if packed:          # documented refusal of some packed bitfield layouts
+                stat('packed_not_implemented')
+                continue
+            raise
+        flex = bool(s.get('flex'))
+        tag = '%s[%s] %s' % (kind, decl(s, j), '.'.join(path))
+        getter = setter = None
+        if not packed:
+            if size != getattr(lib, 'size_%d' % j)():
+                report('layout', 'sizeof(%s)=%d but gcc %d: %s' % (
+                    tn, size, getattr(lib, 'size_%d' % j)(), decl(s, j)), j, None)
+                continue
+            getter = getattr(lib, 'get_%d' % j)
+            setter = getattr(lib, 'set_%d' % j)
+        # ---- memory the struct lives in: (pointer, enclosing buffer, offset) ----
+        keep = []
+        if flex:
+            p = ffi.new(tn + ' *', {'s1': 8})
+        else:
+            p = ffi.new(tn + ' *')
+        pbuf = ffi.buffer(p)
+        size = len(pbuf)
+        sites = {'own': (p, pbuf, 0)}
+        if not flex:
+            arr = ffi.new(tn + '[3]')
+            sites['arr'] = (arr + 1, ffi.buffer(arr), size)
+            ba = bytearray(size + 16)
+            whole = ffi.from_buffer('char[]', ba)
+            sites['frombuf'] = (ffi.cast(tn + ' *', whole + 8), ffi.buffer(whole), 8)
+            keep = [arr, ba, whole]
+        # ---- storage mask of the field ----
+        bitpos = None
+        if packed:
+            fld = dict(ctype.fields)[path[0]]
+            if fld.bitsize != w or fld.bitshift < 0:
+                report('field-metadata', '%s: cffi reports bitshift=%d bitsize=%d for a field '
+                       'of width %d' % (tag, fld.bitshift, fld.bitsize, w), j, None)
+                continue
+            bitpos = 8 * fld.offset + fld.bitshift
+            if bitpos + w > 8 * size:
+                report('field-bits-beyond-struct', '%s: field bits [%d,%d) but sizeof is %d' %
+                       (tag, bitpos, bitpos + w, size), j, None)
+                continue
+            if fld.offset + ffi.sizeof(fld.type) > size:
+                stat('packed_unit_beyond_struct')
+            mask = (((1 << w) - 1) << bitpos).to_bytes(size, 'little')
+        else:
+            pbuf[:] = b'\0' * size
+            setter(p, -1)   # storage mask: what a C store of all-ones changes in zeroed memory
+            mask = bytes(pbuf)
+            pbuf[:] = b'\0' * size
         maskbits = sum(bin(b).count('1') for b in mask)
         if maskbits != w:
-            report('harness', 'C mask has %d bits, width %d' % (maskbits, w), j, None)
+            report('harness', 'C mask has %d bits, width %d: %s' % (maskbits, w, tag), j, None)
             continue
-        tag = '%s:%d@%d' % (T, w, s['k'])
+        stat('kind_' + kind)
+
+        def cread(q, image):
+            """the value C code reads from the field in `image` (bytes of the struct)"""
+            if getter is not None:
+                return getter(q)
+            u = (int.from_bytes(image, 'little') >> bitpos) & ((1 << w) - 1)
+            if signed and u >> (w - 1):
+                u -= 1 << w
+            return u
+        rdmech = ('c-read-differs', 'read-differs-from-c') if not packed else \
+            ('model-read-differs', 'read-differs-from-model')
+
+        def holder(q, how):
+            """object on which the last path component is an attribute"""
+            o = q[0] if how == 'val' else q
+            for name in path[:-1]:
+                o = getattr(o, name)
+            return o
+
         for v in s['vals']:
             n += 1
-            init = bytes(rnd.getrandbits(8) for _ in range(size)) if rnd.random() < 0.8 \
-                else (b'\xff' * size if rnd.random() < 0.5 else b'\0' * size)
-            buf[:] = init
-            cbefore = getter(p)
-            try:
-                p.f = v
-                res = 'ok'
-            except OverflowError:
-                res = 'OverflowError'
-            except Exception as e:
-                res = type(e).__name__
-            after = bytes(buf)
+            rnd = random.Random('%d/%s/%d' % (case['seed'], s.get('key', ''), v))
+            mode = 'ptr' if rnd.random() < 0.4 else rnd.choice(MODES)
+            sname = 'own' if rnd.random() < 0.5 else rnd.choice(SITES)
+            if os.environ.get('C02_AUDIT_BASELINE'):   # AUDIT-TEMP
+                mode, sname = 'ptr', 'own'
+            if sname not in sites:
+                sname = 'own'
+            if mode == 'new-list' and (flex or kind == 'anon_union' or
+                                       _list_init(ctype, path, 0) is None):
+                mode = 'new-dict'
+            fresh = mode.startswith('new-')
+            vv = v
+            z = rnd.random()
+            if os.environ.get('C02_AUDIT_BASELINE'):   # AUDIT-TEMP
+                z = 1
+            if z < 0.04:
+                vv = _I(v)
+                stat('int_subclass_values')
+            elif z < 0.3 and v in (0, 1):
+                vv = bool(v)
+                stat('bool_values')
             inrange = lo <= v <= hi or (signed and w == 1 and v == 1 and T != '_Bool')
+            exp = -1 if (signed and w == 1 and v == 1) else v
+            stat('mode_' + mode)
+            if fresh:
+                # a new object initialised with the value: background is zero
+                q = None
+                try:
+                    if mode == 'new-dict':
+                        d = _nest(path, vv)
+                        if flex:
+                            d['s1'] = 8
+                        q = ffi.new(tn + ' *', d)
+                    else:
+                        q = ffi.new(tn + ' *', _list_init(ctype, path, vv))
+                    res = 'ok'
+                except OverflowError:
+                    res = 'OverflowError'
+                except Exception as e:
+                    res = type(e).__name__
+                init = b'\0' * size
+                off = 0
+                after = bytes(ffi.buffer(q)) if q is not None else init
+                how = 'ptr'
+                total = init
+            else:
+                stat('site_' + sname)
+                q, wbuf, off = sites[sname]
+                tot = len(wbuf)
+                if rnd.random() < 0.8:
+                    total = bytes(rnd.getrandbits(8) for _ in range(tot))
+                else:
+                    total = b'\xff' * tot if rnd.random() < 0.5 else b'\0' * tot
+                wbuf[:] = total
+                init = total[off:off + size]
+                cbefore = cread(q, init)
+                how = mode
+                try:
+                    if mode == 'item':
+                        q[0] = _nest(path, vv)
+                    else:
+                        setattr(holder(q, mode), path[-1], vv)
+                    res = 'ok'
+                except OverflowError:
+                    res = 'OverflowError'
+                except Exception as e:
+                    res = type(e).__name__
+                wafter = bytes(wbuf)
+                after = wafter[off:off + size]
+                if wafter[:off] != total[:off] or wafter[off + size:] != total[off + size:]:
+                    report('outside-object-changed', '%s: store of %d (%s, %s) changed memory '
+                           'outside the struct' % (tag, v, mode, sname), j, v)
+            what = '%s (%s%s)' % (tag, mode, '' if fresh else ', ' + sname)
             if inrange:
                 stats['accepted'] += 1
                 if res != 'ok':
                     report('inrange-rejected', '%s: in-range value %d rejected with %s' %
-                           (tag, v, res), j, v)
+                           (what, v, res), j, v)
                     continue
-                exp = -1 if (signed and w == 1 and v == 1) else v
                 try:
-                    got = p.f
+                    got = getattr(holder(q, how if how in ('ptr', 'val') else 'ptr'), path[-1])
                 except Exception as e:
                     got = 'exc:' + type(e).__name__
-                if got != exp:
-                    report('readback', '%s: wrote %d, read back %r' % (tag, v, got), j, v)
-                if T == '_Bool':
-                    got = int(got) if isinstance(got, bool) else got
-                cgot = getter(p)
+                if got != exp or not isinstance(got, int):
+                    report('readback', '%s: wrote %d, read back %r' % (what, v, got), j, v)
+                cgot = cread(q, after)
                 stats['c_reads'] += 1
                 if cgot != exp:
-                    report('c-read-differs', '%s: wrote %d, C reads %r' % (tag, v, cgot), j, v)
+                    report(rdmech[0], '%s: wrote %d, C reads %r' % (what, v, cgot), j, v)
                 for i in range(size):
                     if (after[i] ^ init[i]) & ~mask[i] & 0xff:
                         report('outside-bits-changed', '%s: store of %d changed bits outside '
                                'the field at byte %d: %02x -> %02x (mask %02x)' %
-                               (tag, v, i, init[i], after[i], mask[i]), j, v)
+                               (what, v, i, init[i], after[i], mask[i]), j, v)
                         break
             else:
                 stats['rejected'] += 1
                 if res == 'ok':
                     report('outofrange-accepted', '%s: out-of-range value %d accepted (reads %r)'
-                           % (tag, v, p.f), j, v)
+                           % (what, v, getattr(holder(q, 'ptr'), path[-1])), j, v)
                 elif res != 'OverflowError':
-                    report('wrong-exception', '%s: out-of-range %d raised %s' % (tag, v, res),
+                    report('wrong-exception', '%s: out-of-range %d raised %s' % (what, v, res),
                            j, v)
                 if after != init:
                     report('rejected-store-changed-memory', '%s: rejected store of %d changed '
-                           'memory' % (tag, v), j, v)
+                           'memory' % (what, v), j, v)
+            if fresh:
+                continue
             # reading random storage: cffi's view == C's view
-            buf[:] = init
+            wbuf[:] = total
+            rhow = 'val' if rnd.random() < 0.3 else 'ptr'
             try:
-                pv = p.f
+                pv = getattr(holder(q, rhow), path[-1])
             except Exception as e:
                 pv = 'exc:' + type(e).__name__
             if pv != cbefore:
-                report('read-differs-from-c', '%s: storage %s: cffi reads %r, C reads %r' %
-                       (tag, init.hex(), pv, cbefore), j, None)
+                report(rdmech[1], '%s: storage %s: cffi reads %r (%s), C reads %r' %
+                       (tag, init.hex(), pv, rhow, cbefore), j, None)
+        del keep
     return {'n': n, 'bad': bad, 'stats': stats}
+
+
+def san_mechanism(case, key, block):
+    # sanitizer reports of the packed class get their own classifier prefix
+    if isinstance(case, dict) and case.get('cls') == 'packed':
+        return 'packed:sanitizer:' + key
+    return None
 
 
 def judge(ctx, setup, case, obs):
     for s in case['structs']:
+        basic = s.get('kind', 'basic') == 'basic'
         for v in s['vals']:
-            ctx.case((s['T'], s['w'], s['k'], v), nontrivial=(s['w'] > 1 or s['k'] > 0))
+            ctx.case((s.get('key') or (s['T'], s['w'], s['k']), v),
+                     nontrivial=(s['w'] > 1 or not basic or s['k'] > 0))
         ctx.count('placements')
         if s['w'] == 8 * s['size']:
             ctx.count('full_width_fields')
+        if s.get('spilled'):
+            ctx.count('spilled_to_next_unit')
     if len(ctx.samples) < 8:
         s = case['structs'][0]
         ctx.samples.append({'decl': decl(s, 0), 'values': s['vals'][:12]})
@@ -227,7 +614,8 @@ def judge(ctx, setup, case, obs):
             s = dict(case['structs'][j])
             if v is not None:
                 s['vals'] = [v]
-            rd = {'structs': [s], 'no': 0, 'seed': case['seed']}
+            rd = {'structs': [s], 'no': 0, 'seed': case['seed'], 'cls': case.get('cls', 'c'),
+                  'pack': case.get('pack')}
         if mech == 'harness':
             ctx.inconclusive(msg)
         else:
@@ -235,12 +623,6 @@ def judge(ctx, setup, case, obs):
 
 
 def replay_setup(ctx, case):
-    src = []
-    for j, s in enumerate(case['structs']):
-        src.append(decl(s, j) + ';')
-        rt = 'unsigned long long' if not s['signed'] else 'long long'
-        src.append('%s get_%d(struct s%d *p) { return p->f; }' % (rt, j, j))
-        src.append('void set_%d(struct s%d *p, long long v) { p->f = v; }' % (j, j))
-        src.append('size_t size_%d(void) { return sizeof(struct s%d); }' % (j, j))
-    case['so'] = cc.build_so(ctx.tmp, '\n'.join(src), 'c02_replay.so')
+    if case.get('cls', 'c') == 'c':
+        case['so'] = cc.build_so(ctx.tmp, c_source(case), 'c02_replay.so')
     return None
